@@ -357,8 +357,15 @@ def compare(a, b, xp=(), exact=(), zero_is_none=(), path=(), out=None, limit=40)
     return out
 
 
+def _brief(v):
+    if isinstance(v, (list, tuple, dict)) and len(v) > 12:
+        return '<%s of %d>' % (type(v).__name__, len(v))
+    return repr(v)[:160]
+
+
 def show(diffs, n=3):
-    return '; '.join('%s: expected %r got %r' % ('/'.join(str(p) for p in path), a, b) for path, a, b in diffs[:n])
+    return '; '.join('%s: expected %s got %s' % ('/'.join(str(p)[:40] for p in path), _brief(a), _brief(b))
+                     for path, a, b in diffs[:n])
 
 
 def field_class(path):
